@@ -336,6 +336,32 @@ def run_case(case, ctx):
                 ctx.fail("scaling_linearity", "value", err=e, **kw)
             else:
                 ctx.ok("scaling_linearity", kb, n >= 2)
+            # one column alone scaled to a tiny (but non-zero: norm 3e-9 > the 1e-10 zero threshold) or a large norm: right-hand sides
+            # are normalised column by column, so that column's answer scales with it and the others do not move
+            for cs_name, target in (("tiny", 3e-9), ("large", 1e6)):
+                # (per batch member, so that every member's column lands at the target norm)
+                f = (target / B.to(torch.float64)[..., 0].norm(dim=-1, keepdim=True).clamp_min(1e-300)).to(dt)
+                B3 = B.clone()
+                B3[..., 0] = B3[..., 0] * f
+                x3 = None
+                if x0 is not None:
+                    x3 = x0.clone()
+                    x3[..., 0] = x3[..., 0] * f
+                res3, ex3 = compare.attempt(run, B3, pre, max(mi, 2 * n), 0, 1e-10, x3, min(ti, max(mi, 2 * n)))
+                if ex3 is not None or not torch.isfinite(res3[0]).all():
+                    continue
+                want = res1[0].to(torch.float64).clone()
+                want[..., 0] = want[..., 0] * f.to(torch.float64)
+                got = res3[0].to(torch.float64)
+                # column-wise relative error (the scaled column must not hide behind the others)
+                num = (got - want).norm(dim=-2)
+                den = want.norm(dim=-2).clamp_min(1e-300)
+                e3 = float((num / den).max())
+                if not e3 <= (4 if dt == torch.float64 else 40) * math.sqrt(kA) * floor_rel + 1e-6:
+                    ctx.fail("column_scaling_linearity", "value", err=e3, detail=f"column 0 scaled to norm {target:.0e}: column-wise relative deviation {e3:.2e}",
+                             **dict(kw, info=kw["info"] | {"column:" + cs_name}))
+                else:
+                    ctx.ok("column_scaling_linearity", kb + "|" + cs_name, n >= 2)
     if clause == "precond_limit" and pre is not None and pk != "identity_alias" and case["special"] is None and 2 * math.sqrt(kA) * floor_rel < 1e-2:
         big = 4 * n + 20
         r1, ex1 = compare.attempt(run, B, pre, big, 0, 1e-12, None, min(ti, big))
